@@ -633,8 +633,7 @@ def callBuiltin (name : String) (args : List Val) (draws : Nat) : BuiltinResult 
         | _, _ => .uninterpreted "sqrt of a non-square"
     | none => .fault "sqrt of a non-number"
   | "cycle", [x] => match x.asNum with
-    | some (q, f) => if q ≥ 0 && q < 360 then .val x else .val (Val.mkNum (Val.ratMod q 360) true |> fun v =>
-        if f then v else .int (Int.fmod q.num 360))
+    | some (q, _) => if q ≥ 0 && q < 360 then .val x else .val (.num (Val.ratMod q 360))
     | none => .fault "cycle of a non-number"
   | "random", [a, b] => match a.asInt, b.asInt with
     | some lo, some hi =>
